@@ -2120,8 +2120,7 @@ sexp sexp_apply (sexp ctx, sexp proc, sexp args) {
 #endif
       sexp_raise("failed to write char to port", _ARG2);
     }
-    top--;
-    _ARG1 = SEXP_VOID;
+    top-=2;              /* the compiler pushes the void result itself */
     break;
   case SEXP_OP_WRITE_STRING:
     if (sexp_stringp(_ARG1))
@@ -2168,9 +2167,7 @@ sexp sexp_apply (sexp ctx, sexp proc, sexp args) {
       goto loop;
     }
 #endif
-    tmp1 = sexp_make_fixnum(i);     /* return the number of bytes written */
-    top-=2;
-    _ARG1 = tmp1;
+    top-=3;              /* the compiler pushes the void result itself */
     break;
   case SEXP_OP_READ_CHAR:
     if (! sexp_iportp(_ARG1))
